@@ -591,3 +591,54 @@ func SubdocOwners(b *Bucket, key string, clients, opsEach int, r *rng.R) (map[st
 	info["inserted"] = len(inserted)
 	return info, ""
 }
+
+// UpdateDeleteWindow: an Update whose callback asks for deletion; a rival write commits inside its read-write
+// window. The deletion may only be applied to the version the callback saw, so the callback must be shown the
+// rival's version before the document is deleted.
+func UpdateDeleteWindow(b *Bucket, key, pre, rival string) (WindowResult, string) {
+	c0, c1 := b.Colls[0], b.Colls[len(b.Colls)-1]
+	res := WindowResult{Loop: "Update(delete)", Rival: rival, Pre: pre}
+	if err := prepare(c0, key, pre); err != nil {
+		return res, "setup: " + err.Error()
+	}
+	var rivalErr error
+	_, err := c0.Update(key, 0, func(cur []byte) ([]byte, *uint32, bool, error) {
+		res.Calls++
+		res.Saw = append(res.Saw, string(cur))
+		if res.Calls == 1 {
+			rivalErr = doRival(c1, key, rival, "R")
+		}
+		if cur == nil {
+			return nil, nil, false, nil // nothing to delete: cancel
+		}
+		if bodyHasRaw(cur, "rival", "R") || bodyHasRaw(cur, "rivalprop", "R") {
+			return nil, nil, false, nil // the rival's version is worth keeping: cancel
+		}
+		return nil, nil, true, nil
+	})
+	res.Err = kv.ErrClass(err)
+	res.Final = kv.ReadBack(c0, key)
+	if rivalErr != nil {
+		return res, "rival write failed: " + rivalErr.Error()
+	}
+	if err != nil {
+		return res, fmt.Sprintf("Update(delete) failed with %s after a rival %s committed inside its read-write window", res.Err, rival)
+	}
+	switch rival {
+	case "Set", "WriteCas", "Incr-like-Set", "Remove+Set", "WriteSubDoc":
+		// the callback would have cancelled had it been shown the rival's version: the rival's document must survive
+		if res.Final.RawErr != "" {
+			return res, fmt.Sprintf("Update(delete) deleted the rival %s's document although its callback was only shown the older version (calls=%d)", rival, res.Calls)
+		}
+	}
+	return res, ""
+}
+
+func bodyHasRaw(raw []byte, field, val string) bool {
+	var doc map[string]any
+	if json.Unmarshal(raw, &doc) != nil {
+		return false
+	}
+	s, _ := doc[field].(string)
+	return s == val
+}
